@@ -378,8 +378,8 @@ pub fn property() -> Property {
             "lines whose key is 'PKGNAME' but do not start with 'PKGNAME=' after trimming (e.g. 'PKGNAME =x') are outside the domain",
         ],
         streams: vec![
-            random_stream("records", "well-formed multi-record inputs x read schedules", clean_strategy, |t| t.pick(50_000, 600_000), check),
-            random_stream("faults", "content faults and I/O errors at every read", fault_strategy, |t| t.pick(12_000, 150_000), check),
+            random_stream("records", "well-formed multi-record inputs x read schedules", clean_strategy, |t| t.pick(50_000, 3_000_000), check),
+            random_stream("faults", "content faults and I/O errors at every read", fault_strategy, |t| t.pick(12_000, 600_000), check),
         ],
         selfcheck: crate::models::pkgpath::selfcheck,
         hang_is_violation: false,
